@@ -2,6 +2,7 @@
 from __future__ import annotations
 
 import ast
+import re
 
 from ..cfg import CFG
 from ..core import ordkey
@@ -347,6 +348,34 @@ def run(ctx):
 
     # ------------------------------------------------------------------ R17.5 (sibling rule) a failed statement does not take accepted records with it
     ctx.import_rule("C18", "R18.3", "R17.5", "every record the SQLite writer accepted is on disk after close: transaction control is issued only by tx_cycle (a ROLLBACK on an error path discards the batch)")
+
+    # ------------------------------------------------------------------ R17.6 close() finalises unconditionally
+    ctx.rule("R17.6", "in close() of the buffered writers the finalising call (writer.flush() / fp.flush() / commit) depends only on the resource existing (self.fp, self.writer, "
+                      "self.con ...), never on a state flag some other method keeps (`not self.flushed`): a flag that is not reset by every write() makes close() skip the records written "
+                      "after the last explicit flush()")
+    n6 = 0
+    for q6 in ("flow.record.adapter.avro.AvroWriter.close", "flow.record.adapter.sqlite.SqliteWriter.close", "flow.record.adapter.jsonfile.JsonfileWriter.close",
+               "flow.record.adapter.csvfile.CsvfileWriter.close", "flow.record.stream.RecordStreamWriter.close"):
+        f6 = prog.find(q6, required=False)
+        if f6 is None:
+            continue
+        cls6 = f6._parent if isinstance(getattr(f6, "_parent", None), ast.ClassDef) else None
+        cfg6 = CFG(f6)
+        flag_attrs = set()
+        if cls6 is not None:
+            for m6 in prog.methods_of(cls6).values():
+                for n in ast.walk(m6):
+                    if isinstance(n, ast.Assign) and isinstance(n.value, ast.Constant) and isinstance(n.value.value, bool):
+                        flag_attrs |= {t.attr for t in n.targets if isinstance(t, ast.Attribute) and norm(t.value) == "self"}
+        for c6 in calls_in(f6):
+            if not (isinstance(c6.func, ast.Attribute) and c6.func.attr in ("flush", "commit", "tx_cycle", "close") and norm(c6.func.value).startswith("self")):
+                continue
+            n6 += 1
+            facts6 = [(t, p) for t, p, _ in cfg6.facts_at((cfg6.header_node_for_expr(c6) or cfg6.node_of(c6)).id)]
+            flagged = sorted({a for t, p in facts6 for a in flag_attrs if re.search(r"\bself\." + re.escape(a) + r"\b", t)})
+            ctx.check(not flagged, "R17.6", f"{q6.split('flow.record.')[1]}:{norm(c6.func)}", f"`{norm(c6)}` in close() runs only under a test of the state flag(s) {flagged}: records written "
+                      "after the flag was last set are not finalised", c6, "depends only on the resource being open", key=f"R17.6:{q6.split('flow.record.')[1]}:finalise-under-flag")
+    ctx.floor("R17.6", "finalising calls in close() methods", n6, 4)
 
 
 
